@@ -24,15 +24,17 @@ PROPS = {
     },
     "C04": {
         "level": "proof",
-        "verus": ["limits", "parser_core"],
+        "verus": ["limits", "parser_core", "parse_common"],
         "frame": ["only_lexer_next_makes_limit_errors", "grammar_uses_primitives_only", "peek_while_is_the_plain_loop"],
         "explanation": "Verus proves the LimitTracker contract (reached <=> current+1 > limit; balanced current; high-water mark) and the token-limit "
                        "contract of Lexer::next (at most `limit` calls of Cursor::advance; a limit error item iff the limit is exhausted, after which the lexer "
                        "is finished and returns None forever); on the parser primitives and every recursion-guarded grammar function (ty::parse, selection_set, "
                        "field_set, object_field, list_value): the tree text only grows at the end and stays a prefix of the input, errors are only appended and frozen once "
-                       "the token limit was hit (no error after the token-limit error), recursion bookkeeping is balanced and never exceeds the limit.",
+                       "the token limit was hit (no error after the token-limit error), recursion bookkeeping is balanced and never exceeds the limit. "
+                       "On the compiler side (unit parse_common) Verus proves for apollo_compiler::parser::Parser::parse_common, for every parse closure: the apollo-parser Parser is built from exactly the "
+                       "source text and the configured limits, and after the call recursion_reached / tokens_reached equal the high-water marks of the returned tree, whatever an earlier call left there.",
         "not_decided": ["global 'recursion-limit error iff nesting depth exceeds r' as one statement over the token stream (each guarded function is proved to check, balance and never exceed the limit; the iff is not composed)",
-                        "reached-figures copy in apollo_compiler::parser::parse_common (generic over a parse closure; not extracted)",
+                        "that the tree's LimitTracker values are the parser's (finish_document / finish_type / finish_selection_set hand them over unchanged: syntax_tree.rs, rowan; shim contract)",
                         "Cursor::advance itself (external_body: one call = one lexer item, never a limit error; second half checked syntactically)",
                         "'limit error iff the unlimited token stream is longer than n' needs the unlimited stream as a ghost; only the per-call iff is proved"],
     },
@@ -158,14 +160,16 @@ PROPS = {
     },
     "C07": {
         "level": "proof",
-        "verus": ["parser_core"],
+        "verus": ["parser_core", "parse_common"],
         "frame": ["grammar_uses_primitives_only"],
         "explanation": "Verus proves for parse_type, for every token stream: the returned tree has no error only if the kinds of the significant tokens added to the tree "
                        "are exactly one Type of the grammar Type :: Name | [ Type ] | Name ! | [ Type ] ! (ghost sequence of significant token kinds; ty::parse's postcondition "
                        "type_grammar, expect's 'consumes the expected token or reports'), and the look-ahead after skipping ignored tokens is EOF (nothing else is left); a missing type "
-                       "is always reported. For parse_selection_set only the end-of-input clause is proved. The tree reports exactly the parser's errors.",
+                       "is always reported. For parse_selection_set only the end-of-input clause is proved. The tree reports exactly the parser's errors. "
+                       "Compiler side (unit parse_common): every parser error whose offset fits 32 bits becomes exactly one diagnostic, in order (SyntaxError / ParserLimit), so a syntax error is never dropped on the way to "
+                       "apollo_compiler::parser::parse_type / parse_field_set, which return Err iff the diagnostic list is non-empty.",
         "assumptions": ['the assumed Lexer contract in the parser_core prelude (items carry the remaining text in order; a measure decreases per item; None only after the limit or at the end) -- C03, not proved', 'Name tokens produced by the lexer satisfy the Name grammar, so grammar::name::validate_name never reports (C03, not proved)', "the ~55 grammar functions that are not extracted keep the primitives' preconditions (they peek before they consume) and reach tokens only through the primitives (second half: frame check grammar_uses_primitives_only)", 'rowan GreenNodeBuilder: token() appends text, start/finish/wrap add none; Drop of NodeGuard has no spec', 'recursion limit < usize::MAX'],
         "not_decided": ["that the tokens consumed by parse_selection_set form exactly ONE selection set (the selection grammar runs through closures: selection() is a shim)",
-                        "the compiler-side mapping syntax error => Err (apollo_compiler::parser::parse_type, parse_field_set)"],
+                        "the last step of the compiler-side mapping: parse_type / parse_field_set turn a non-empty DiagnosticList into Err (errors.into_result(): closures, not extracted)"],
     },
 }
